@@ -271,3 +271,175 @@ Proof.
   { unfold c_int_ok. rewrite !andb_true_iff, !Z.leb_le. lia. }
   rewrite Hok. cbn [negb]. reflexivity.
 Qed.
+
+Definition rstrip (s : list N) : list N := rev (lstrip (rev s)).
+
+Lemma strip_rstrip s : strip s = rstrip (lstrip s).
+Proof. reflexivity. Qed.
+
+Lemma lstrip_suffix u : exists p, u = p ++ lstrip u.
+Proof.
+  induction u as [|c u [p Hp]].
+  - exists []. reflexivity.
+  - cbn [lstrip]. destruct (is_space c).
+    + exists (c :: p). cbn. f_equal. exact Hp.
+    + exists []. reflexivity.
+Qed.
+
+Lemma lstrip_app u v :
+  lstrip (u ++ v) = match lstrip u with [] => lstrip v | l => l ++ v end.
+Proof.
+  induction u as [|c u IH]; [reflexivity|].
+  cbn [app lstrip]. destruct (is_space c); [exact IH|reflexivity].
+Qed.
+
+Lemma rstrip_app x y :
+  rstrip (x ++ y) = match rstrip y with [] => rstrip x | l => x ++ l end.
+Proof.
+  unfold rstrip. rewrite rev_app_distr, lstrip_app.
+  destruct (lstrip (rev y)) as [|d l] eqn:E.
+  - reflexivity.
+  - cbn [rev]. destruct (rev l ++ [d]) eqn:E2.
+    + apply app_eq_nil in E2 as [_ E2]. discriminate.
+    + rewrite <- E2. rewrite rev_app_distr, rev_involutive. cbn [rev]. reflexivity.
+Qed.
+
+(* rstrip of a non-empty string is empty or keeps the head *)
+Lemma rstrip_head c r : rstrip (c :: r) = [] \/ exists t, rstrip (c :: r) = c :: t.
+Proof.
+  unfold rstrip.
+  destruct (lstrip_suffix (rev (c :: r))) as [p Hp].
+  destruct (lstrip (rev (c :: r))) as [|d l] eqn:E; [left; reflexivity|right].
+  apply (f_equal (@rev N)) in Hp. rewrite rev_involutive, rev_app_distr in Hp.
+  destruct (rev (d :: l)) as [|h t] eqn:E2.
+  - apply (f_equal (@List.length N)) in E2. rewrite rev_length in E2. discriminate.
+  - cbn [app] in Hp. inversion Hp; subst. exists t. reflexivity.
+Qed.
+
+Lemma rstrip_id_last s : s <> [] -> is_space (last s 0%N) = false -> rstrip s = s.
+Proof.
+  intros Hne Hl. unfold rstrip.
+  destruct (rev s) as [|d r] eqn:Hr.
+  - apply (f_equal (@List.length N)) in Hr. rewrite rev_length in Hr. destruct s; [contradiction|discriminate].
+  - assert (Hd : d = last s 0%N).
+    { rewrite <- (rev_involutive s), Hr. cbn [rev]. rewrite last_last. reflexivity. }
+    rewrite lstrip_id by (rewrite Hd; exact Hl).
+    rewrite <- Hr. apply rev_involutive.
+Qed.
+
+Lemma hd_split_app sep a b : ~ In sep a -> hd [] (split sep (a ++ b)) = a ++ hd [] (split sep b).
+Proof.
+  intros Hn. unfold split.
+  assert (G : forall cur, hd [] (split_on sep (a ++ b) cur) = rev cur ++ a ++ hd [] (split_on sep b [])).
+  { induction a as [|c a IH]; intros cur.
+    - cbn [app].
+      assert (G2 : forall s cur, hd [] (split_on sep s cur) = rev cur ++ hd [] (split_on sep s [])).
+      { induction s as [|c s IHs]; intros cur'; cbn [split_on].
+        - cbn. rewrite app_nil_r. reflexivity.
+        - destruct (N.eqb c sep); [cbn; rewrite app_nil_r; reflexivity|].
+          rewrite IHs. rewrite (IHs [c]). cbn [rev app]. rewrite <- app_assoc. reflexivity. }
+      apply G2.
+    - cbn [app split_on]. destruct (N.eqb_spec c sep) as [->|Hne]; [exfalso; apply Hn; left; reflexivity|].
+      rewrite IH by (intros Hin; apply Hn; right; exact Hin).
+      cbn [rev]. rewrite <- !app_assoc. reflexivity. }
+  rewrite G. reflexivity.
+Qed.
+
+Lemma hd_split_sep sep a b : ~ In sep a -> hd [] (split sep (a ++ sep :: b)) = a.
+Proof. intros H. rewrite split_sep by assumption. reflexivity. Qed.
+
+Lemma existsb_eqb_true c s : In c s -> existsb (N.eqb c) s = true.
+Proof. intros H. apply existsb_exists. exists c. split; [assumption|apply N.eqb_refl]. Qed.
+
+(* the date part before a space or a 'T' is all that counts *)
+Section DatePrefix.
+  Variable base : list N.
+  Hypothesis base_ne : base <> [].
+  Hypothesis base_hd : is_space (hd 0%N base) = false.
+  Hypothesis base_last : is_space (last base 0%N) = false.
+  Hypothesis base_no32 : ~ In 32%N base.
+  Hypothesis base_no84 : ~ In 84%N base.
+
+  Lemma lstrip_base_app r : lstrip (base ++ r) = base ++ r.
+  Proof. destruct base as [|c b]; [contradiction|]. cbn [app]. apply lstrip_id. exact base_hd. Qed.
+
+  Lemma date_prefix_space rest :
+    cast_date TString (VStr (base ++ 32%N :: rest)) = cast_date TString (VStr base).
+  Proof.
+    unfold cast_date.
+    rewrite (existsb_eqb_true 32%N (base ++ 32%N :: rest)) by (apply in_or_app; right; left; reflexivity).
+    rewrite (existsb_eqb_false 32%N base base_no32).
+    rewrite strip_rstrip, lstrip_base_app, rstrip_app.
+    assert (H1 : hd [] (split 32 match rstrip (32%N :: rest) with [] => rstrip base | (_ :: _) as l => base ++ l end) = base).
+    { destruct (rstrip_head 32%N rest) as [E|[t E]]; rewrite E.
+      - rewrite rstrip_id_last by assumption. rewrite split_no_sep by assumption. reflexivity.
+      - apply hd_split_sep. assumption. }
+    rewrite H1. reflexivity.
+  Qed.
+
+  Lemma date_prefix_T rest :
+    cast_date TString (VStr (base ++ 84%N :: rest)) = cast_date TString (VStr base).
+  Proof.
+    unfold cast_date.
+    rewrite (existsb_eqb_false 32%N base base_no32).
+    rewrite (existsb_eqb_false 84%N base base_no84).
+    destruct (existsb (N.eqb 32) (base ++ 84%N :: rest)) eqn:E32.
+    - rewrite strip_rstrip, lstrip_base_app, rstrip_app.
+      destruct (rstrip_head 84%N rest) as [E|[t E]].
+      + exfalso. unfold rstrip in E. apply (f_equal (@rev N)) in E. rewrite rev_involutive in E. cbn [rev] in E.
+        rewrite lstrip_app in E.
+        destruct (lstrip (rev rest)); cbn in E; [discriminate|].
+        destruct l; discriminate.
+      + rewrite E. rewrite hd_split_app by assumption.
+        set (u := hd [] (split 32 (84%N :: t))).
+        assert (Hu : exists u', u = 84%N :: u').
+        { unfold u, split. cbn [split_on]. replace (N.eqb 84 32) with false by reflexivity.
+          assert (G : forall s cur, exists u', hd [] (split_on 32 s (cur ++ [84%N])) = 84%N :: u').
+          { induction s as [|c s IHs]; intros cur; cbn [split_on].
+            - rewrite rev_app_distr. cbn. eexists. reflexivity.
+            - destruct (N.eqb c 32).
+              + rewrite rev_app_distr. cbn. eexists. reflexivity.
+              + apply (IHs (c :: cur)). }
+          apply (G t []). }
+        destruct Hu as [u' ->].
+        rewrite (existsb_eqb_true 84%N (base ++ 84%N :: u')) by (apply in_or_app; right; left; reflexivity).
+        rewrite hd_split_sep by assumption. reflexivity.
+    - rewrite (existsb_eqb_true 84%N (base ++ 84%N :: rest)) by (apply in_or_app; right; left; reflexivity).
+      rewrite hd_split_sep by assumption. reflexivity.
+  Qed.
+End DatePrefix.
+
+Lemma last_app_nonempty (a b : list N) d : b <> [] -> last (a ++ b) d = last b d.
+Proof.
+  intros Hb. induction a as [|c a IH]; [reflexivity|].
+  cbn [app]. destruct (a ++ b) eqn:E.
+  - apply app_eq_nil in E as [_ E]. contradiction.
+  - rewrite <- E in *. cbn [last]. rewrite E. rewrite <- E. exact IH.
+Qed.
+
+Lemma date_ymd_time sy sm sd sep rest :
+  all_digits sy -> all_digits sm -> all_digits sd ->
+  List.length sy = 4%nat -> (1 <= List.length sm <= 2)%nat -> (1 <= List.length sd <= 2)%nat ->
+  sep = 32%N \/ sep = 84%N ->
+  cast TString TDate (VStr ((sy ++ 45%N :: sm ++ 45%N :: sd) ++ sep :: rest)) =
+  cast TString TDate (VStr (sy ++ 45%N :: sm ++ 45%N :: sd)).
+Proof.
+  intros Hy Hm Hd Ly Lm Ld Hsep.
+  set (base := sy ++ 45%N :: sm ++ 45%N :: sd).
+  assert (Hno : forall c, is_digit c = false -> c <> 45%N -> ~ In c base).
+  { intros c Hc H45 Hin. unfold base in Hin.
+    apply in_app_or in Hin as [Hin|[Hin|Hin]]; [apply (digits_no c sy Hy Hc Hin)|congruence|].
+    apply in_app_or in Hin as [Hin|[Hin|Hin]]; [apply (digits_no c sm Hm Hc Hin)|congruence|apply (digits_no c sd Hd Hc Hin)]. }
+  assert (Hne : base <> []) by (unfold base; destruct sy; discriminate).
+  assert (Hhd : is_space (hd 0%N base) = false).
+  { unfold base. destruct sy as [|c sy']; [discriminate|]. cbn [app hd]. apply digit_not_space. inversion Hy; assumption. }
+  assert (Hlast : is_space (last base 0%N) = false).
+  { unfold base. destruct sd as [|c sd']; [cbn in Ld; lia|].
+    replace (sy ++ 45%N :: sm ++ 45%N :: c :: sd') with ((sy ++ 45%N :: sm ++ [45%N]) ++ c :: sd')
+      by (rewrite <- !app_assoc; cbn; rewrite <- app_assoc; reflexivity).
+    rewrite last_app_nonempty by discriminate. apply digit_not_space. apply all_digits_last; [assumption|discriminate]. }
+  unfold cast. cbn [ty_eqb].
+  destruct Hsep as [->| ->].
+  - apply date_prefix_space; try assumption; apply Hno; solve [reflexivity|discriminate].
+  - apply date_prefix_T; try assumption; apply Hno; solve [reflexivity|discriminate].
+Qed.
